@@ -13,7 +13,7 @@ import random
 
 import numpy as np
 
-from .common import make_tree, same_snapshot, snapshot_tree, sorted_parent_tables
+from .common import ITERABLE_FORMS, as_iterable, make_tree, same_snapshot, snapshot_tree, sorted_parent_tables
 
 EXACT_STEPS = [((1, 0, 0), 1), ((0, 2, 0), 2), ((0, 0, 3), 3), ((3, 4, 0), 5), ((0, 6, 8), 10), ((2, 0, 0), 2), ((0, 0, 1), 1)]
 
@@ -264,7 +264,15 @@ def check(ctx, spec):
             check_sub(V, orig, pid, res, descendants_or_self(pid, start), start, om, mk)
         elif op == "to_subtree":
             rem, mk = [int(v) for v in spec["removals"]], spec["mapping"]
-            arg = {"list": list(rem), "reversed": list(reversed(rem)), "set": set(rem), "array": np.array(rem, dtype=np.int32), "dup": list(rem) + list(rem)}[spec["container"]]
+            # `removals: Iterable[int]`: the ids in the given ARRANGEMENT (as listed / reversed / every id twice), handed over in the given
+            # FORM (bounded/common.py: ITERABLE_FORMS -- re-iterable containers and one-shot iterators; a removal set means a set)
+            cont = spec["container"]
+            legacy = {"reversed": ("reversed", "list"), "array": ("as-listed", "ndarray-int32"), "dup": ("twice", "list")}  # the container names of earlier replay files
+            arrange, form = legacy.get(cont, (spec.get("arrange", "as-listed"), cont))
+            ids = {"as-listed": list(rem), "reversed": list(reversed(rem)), "twice": list(rem) + list(rem), "interleaved-twice": [v for x in rem for v in (x, x)]}[arrange]
+            arg = as_iterable(ids, form)
+            if arg is None:
+                return  # this form cannot hold these ids (a range needs an arithmetic progression)
             om = _mapping(mk)
             kw = {} if mk == "none" else dict(out_mapping=om)
             res = to_subtree(tree, arg, **kw)
@@ -358,7 +366,7 @@ def run(ctx):
     n_sub = 7 if thorough else 6   # (tree, start), callbacks, orders, thresholds
     n_rem = 6 if thorough else 5   # all removal sets, all type assignments
     MK = ("none", "list", "dict")
-    CONT = ("list", "reversed", "set", "array", "dup")
+    ARR = ("as-listed", "reversed", "twice", "interleaved-twice")
 
     tables = [list(p) for n in range(1, n_sub + 1) for p in sorted_parent_tables(n)]
     # non-sorted numberings with root 0
@@ -403,9 +411,10 @@ def run(ctx):
         ci = 0
         for size in range(n + 1):
             for rem in itertools.combinations(range(n), size):
-                for mk in MK:
-                    check(lim, dict(op="to_subtree", pid=pid, removals=list(rem), container=CONT[ci % len(CONT)], mapping=mk))
+                for form in ITERABLE_FORMS:  # every form of `Iterable[int]` for every removal set; arrangement and out_mapping kind rotate
+                    check(lim, dict(op="to_subtree", pid=pid, removals=list(rem), container=form, arrange=ARR[ci % len(ARR)], mapping=MK[(ci // len(ARR)) % len(MK)]))
                     ci += 1
+                ci += 1  # (so that the rotation is not in step with the number of forms)
         # types over {2,3}: root soma (1) with every assignment below it; for small trees also a root of type 2/3
         assigns = [[1] + list(a) for a in itertools.product((2, 3), repeat=n - 1)]
         if n <= 4:
@@ -419,7 +428,9 @@ def run(ctx):
     ctx.rule(
         f"every sorted parent table <= {n_sub} nodes (+ relabelled non-sorted ones with root 0) x every start node x out_mapping {{none, list, dict}} for get_subtree / Node.subtree; "
         f"cut_tree with {len(ENTER)} enter and {len(LEAVE)} leave predicates and with neither; furcation orders 0..3; CutShortTipBranch thresholds at and +-0.5 around every distinct "
-        f"terminal-branch length (exact integer geometry), 0 and the default; neurites/dendrites with two type patterns; every removal set and every type assignment over {{2,3}} "
+        f"terminal-branch length (exact integer geometry), 0 and the default; neurites/dendrites with two type patterns; every removal set x every form of Iterable[int] "
+        f"({len(ITERABLE_FORMS)}: list, tuple, set, frozenset, int32 / int64 arrays, dict keys, dict, range, deque and the one-shot ones: generator expression, iter(list), map, filter, "
+        f"reversed, chain objects, generator function) with the ids as listed / reversed / repeated and out_mapping none / list / dict in rotation, and every type assignment over {{2,3}} "
         f"for tables <= {n_rem} nodes. Non-trivial = >= 2 nodes (and a non-empty removal set / an existing terminal branch / a neurite)",
         exhaustive=True,
     )
